@@ -33,6 +33,12 @@ Theorem C28_encode_shape : forall oc m,
 Proof. exact encode_shape_thm. Qed.
 Print Assumptions C28_encode_shape.
 
+(** the encoder itself never panics in a wrapping build, and with overflow checks only at 2^64 bytes *)
+Theorem C28_encode_no_panic : forall oc m,
+  typed_backend m = true -> (encode oc m = Panic <-> (oc = true /\ two64 <= 4 + body_size m)).
+Proof. exact encode_panic_iff_thm. Qed.
+Print Assumptions C28_encode_no_panic.
+
 (** ** the independent parser recovers the same fields, and leaves following bytes untouched *)
 Theorem C28_parse_encode : forall oc m rest b,
   typed_backend m = true -> wf_backend m = true -> encode oc m = Ok b ->
